@@ -173,3 +173,81 @@ def rule_projection_shared(db: ProgramDB) -> List[Instance]:
                     f"the quantifiers project through different implementations {sorted(impls)}: the value `the` returns "
                     f"need not be the one `an` yields"))
     return out
+
+
+def rule_var_null_guard(db: ProgramDB) -> List[Instance]:
+    """`_var_` of a result quantifier is None when its descriptor is a SetOf (only Entity designates a single selected
+    variable).  Every dereference of self._var_ in the quantifiers' evaluation code must therefore be guarded - sibling
+    cross-check: where one quantifier tests it before use, the other must too."""
+    from ..boolexpr import guards_of
+    out = []
+    rq = db.cls("ResultQuantifier")
+    qod = db.cls("QueryObjectDescriptor")
+    # which descriptors set _var_?
+    setters = []
+    for c in qod.all_subclasses():
+        for m in c.methods.values():
+            for n in own_nodes(m.node):
+                if isinstance(n, ast.Assign) and any(isinstance(t, ast.Attribute) and t.attr == "_var_" and
+                                                     isinstance(t.value, ast.Name) and t.value.id == "self" for t in n.targets):
+                    setters.append(c.name)
+    concrete = [c.name for c in qod.all_subclasses(include_self=False)]
+    may_be_none = [c for c in concrete if c not in setters and not any(s for s in setters if db.cls(c).is_subclass_of(s))]
+    if not may_be_none:
+        out.append(inst("VAR-NULL-GUARD", INFO, rq, "ResultQuantifier._var_", "every descriptor designates a single variable"))
+        return out
+    n = 0
+    for c in rq.all_subclasses():
+        for m in c.methods.values():
+            if m.name in ("__post_init__",):
+                continue
+            for x in own_nodes(m.node):
+                if isinstance(x, ast.Attribute) and isinstance(x.value, ast.Attribute) and x.value.attr == "_var_" \
+                        and isinstance(x.value.value, ast.Name) and x.value.value.id == "self" and isinstance(x.ctx, ast.Load):
+                    n += 1
+                    g = guards_of(x, m.node.body) or []
+                    guarded = any(unparse(t) == "self._var_" and pol for t, pol in g) or \
+                        any("self._var_ is not None" in unparse(t) and pol for t, pol in g) or \
+                        any(isinstance(t, ast.Call) and dotted(t.func) == "isinstance" and "Entity" in unparse(t) and pol for t, pol in g)
+                    out.append(inst("VAR-NULL-GUARD", HOLDS if guarded else VIOLATION, m, f"{m.short}[{unparse(x)}]",
+                                    f"`{unparse(x)}` is used only when the quantifier has a single selected variable" if guarded else
+                                    f"`{unparse(x)}` is dereferenced unconditionally, but _var_ is None when the descriptor is "
+                                    f"{' / '.join(may_be_none)} (a query over several selected variables): the quantifier raises "
+                                    f"AttributeError instead of returning its solution", line=x.lineno))
+    if n == 0:
+        out.append(inst("VAR-NULL-GUARD", INFO, rq, "ResultQuantifier._var_", "no dereference of self._var_ in evaluation code"))
+    return out
+
+
+def rule_quantifier_kind(db: ProgramDB) -> List[Instance]:
+    """an()/the()/infer() return a quantifier of the requested kind on every path."""
+    out = []
+    fn = db.fn("entity:select_one_or_select_many_or_infer")
+    qp = fn.positional_params[0]
+    rets = [n for n in own_nodes(fn.node) if isinstance(n, ast.Return) and n.value is not None]
+    names = {r.value.id for r in rets if isinstance(r.value, ast.Name)}
+    n = 0
+    for node in own_nodes(fn.node):
+        if isinstance(node, ast.Assign) and any(isinstance(t, ast.Name) and t.id in names for t in node.targets):
+            n += 1
+            v = node.value
+            parts = [v.body, v.orelse] if isinstance(v, ast.IfExp) else [v]
+            bad = []
+            for p in parts:
+                built = isinstance(p, ast.Call) and isinstance(p.func, ast.Name) and p.func.id == qp
+                if not built:
+                    # passing the argument through is only right when it already is of the requested kind
+                    from ..boolexpr import guards_of
+                    g = (guards_of(node, fn.node.body) or []) + ([(v.test, p is v.body)] if isinstance(v, ast.IfExp) else [])
+                    kind_checked = any(qp in unparse(t) and ("type(" in unparse(t) or "isinstance" in unparse(t)) and pol
+                                       for t, pol in g)
+                    if not kind_checked:
+                        bad.append(p)
+            out.append(inst("QUANTIFIER-KIND", HOLDS if not bad else VIOLATION, fn, f"select_one_or_select_many_or_infer[{unparse(node)[:40]}]",
+                            f"`{unparse(node)[:70]}` returns a `{qp}(...)`" if not bad else
+                            f"`{unparse(node)[:70]}` hands back `{unparse(bad[0])}` whatever kind of quantifier was requested: "
+                            f"the(T(From(d), f=v)) is an An, and its evaluate() returns a generator instead of the single solution",
+                            line=node.lineno))
+    if n == 0:
+        raise AnalysisError("select_one_or_select_many_or_infer: result assignments not found")
+    return out
